@@ -170,6 +170,32 @@ def lineGraphFrom (es : List Edge) (d : Dist) (s : Rat) (weighted : Bool) (adj :
 def lineGraph (nodes : List Nat) (es : List Edge) (d : Dist) (s : Rat) (weighted : Bool) : Option LG :=
   lineGraphFrom es d s weighted (nodes.map (incident es))
 
+/-! #### the table of incident lists as an observed input
+
+`line_graph` does not compute the incident lists from `get_edges()`: it asks the object (`h.get_incident_edges(n)`),
+i.e. it reads the container's per-node id lists.  For an object reached through a history (removals, a copy whose
+original was changed afterwards, ...) these lists are a second, independent piece of state.  The checks below are the
+executable form of the three facts about that table which the line-graph theorems assume; the driver evaluates them on
+the table the real object returns, and runs `lineGraphFrom` on that very table. -/
+
+/-- two hyperedges have a common node -/
+def sharesNode (a b : Edge) : Bool := a.any (fun n => b.contains n)
+
+/-- every list is duplicate-free and lists hyperedges of `get_edges()` only -/
+def incListsOK (es : List Edge) (adj : List (List Edge)) : Bool :=
+  adj.all (fun l => decide l.Nodup && l.all (fun e => es.contains e))
+
+/-- the members of one list pairwise have a common node -/
+def incSharesOK (adj : List (List Edge)) : Bool :=
+  adj.all (fun l => l.all (fun a => l.all (fun b => sharesNode a b)))
+
+/-- every two hyperedges with a common node are together in some list -/
+def incCoversOK (es : List Edge) (adj : List (List Edge)) : Bool :=
+  es.all (fun a => es.all (fun b => !sharesNode a b || adj.any (fun l => l.contains a && l.contains b)))
+
+def incidentOK (es : List Edge) (adj : List (List Edge)) : Bool :=
+  incListsOK es adj && incSharesOK adj && incCoversOK es adj
+
 /-! ### directed_line_graph -/
 
 /-- loop body for `(edge1, edge2)`; `none` = exception -/
